@@ -1,5 +1,5 @@
 // c14.cpp — the three candidate-cycle collections of the real code, in emission order.
-// case:  A <graph>   double weights      AI <graph>   int weights
+// case:  A <graph>   double weights      AI <graph>   int weights      AL <graph>   long long weights (64-bit: values above 2^53)
 // output: for X in H (Horton), F (FVS), I (isometric):  "X <k> (root edge weight)*k T <nt> (source pred_0 .. pred_{n-1})*nt"
 //   root = trees[c.tree()].source(), edge = insertion index, weight exact; the T part lists the builder's trees in order:
 //   source and, per vertex, the predecessor edge id (-1 = root, -2 = no node).  The sources of F's trees are the
@@ -42,6 +42,7 @@ int main() {
         std::string kind = t.next();
         if (kind == "A") run_all<DGraph>(t, out);
         else if (kind == "AI") run_all<IGraph>(t, out);
+        else if (kind == "AL") run_all<LGraph>(t, out);
         else throw std::runtime_error("c14: bad kind " + kind);
     });
 }
